@@ -26,6 +26,7 @@ type apiOpt struct {
 	FO      *flags.Option
 	Full    string // long name including the namespaces of the home group
 	InCmd   bool
+	Init    bool // the program stored content in the list / map before registering it
 }
 
 var apiKinds = []string{"int", "string", "strs", "map", "float", "bool", "dur", "u8", "int", "string"}
@@ -96,6 +97,15 @@ func addAPIOptions(r *Rand, b *Built, rootScope bool) []*apiOpt {
 			}
 		}
 		a.Ptr = apiVar(a.Kind)
+		if (a.Kind == "strs" || a.Kind == "map") && r.Chance(1, 3) {
+			// pre-existing content: replaced by the first explicit occurrence (or by defaults), kept otherwise
+			a.Init = true
+			if a.Kind == "strs" {
+				a.Ptr.Elem().Set(reflect.ValueOf([]string{"old"}))
+			} else {
+				a.Ptr.Elem().Set(reflect.ValueOf(map[string]int{"old": 9}))
+			}
+		}
 		a.FO = &flags.Option{LongName: a.Long, ShortName: a.Short, Description: "added through the API", Default: a.Default}
 		groups := allLiveGroups(b.P.Command.Group, nil)
 		cmds := allLiveCommands(b.P.Command, nil)
@@ -133,7 +143,11 @@ func (a *apiOpt) describe() string {
 	if len(a.Default) > 0 {
 		s += fmt.Sprintf(", Default:%q", a.Default)
 	}
-	return s + fmt.Sprintf("}, new(%s)) on %s (effective name --%s)", a.Kind, a.Home, a.Full)
+	v := "new(" + a.Kind + ")"
+	if a.Init {
+		v = "&" + a.Kind + "{pre-existing content \"old\"}"
+	}
+	return s + fmt.Sprintf("}, %s) on %s (effective name --%s)", v, a.Home, a.Full)
 }
 
 func describeAPI(as []*apiOpt) []string {
@@ -181,7 +195,7 @@ func apiHostileTokens(r *Rand, as []*apiOpt) []string {
 
 // apiOccurrences: k single-token occurrences with good values plus the expected final content of every variable
 // (canonical text), given that nothing else on the command line names these options.
-func apiOccurrences(r *Rand, as []*apiOpt) (toks []string, want map[*apiOpt]string, seen map[*apiOpt]int) {
+func apiOccurrences(r *Rand, as []*apiOpt, sepOK bool) (toks []string, want map[*apiOpt]string, seen map[*apiOpt]int) {
 	want = map[*apiOpt]string{}
 	seen = map[*apiOpt]int{}
 	ints := map[*apiOpt]map[string]int{}
@@ -200,9 +214,10 @@ func apiOccurrences(r *Rand, as []*apiOpt) (toks []string, want map[*apiOpt]stri
 			continue
 		}
 		v := apiGood[a.Kind][r.Intn(len(apiGood[a.Kind]))]
-		if name[1] != '-' {
-			// attached short form: -sV means V for any V that does not start with '='; "-s=V" means V too
-			toks = append(toks, name+"="+v)
+		if sepOK && v != "" && v[0] != '-' && r.Chance(1, 3) {
+			// argument as the next token (an option that takes an argument consumes any next token that does not
+			// look like an option)
+			toks = append(toks, name, v)
 		} else {
 			toks = append(toks, name+"="+v)
 		}
@@ -255,6 +270,12 @@ func canonIntMap(m map[string]int) string {
 // untouched
 func (a *apiOpt) unsetWant() string {
 	if len(a.Default) == 0 {
+		if a.Init && a.Kind == "strs" {
+			return `["old"]`
+		}
+		if a.Init {
+			return `"old":9,`
+		}
 		switch a.Kind {
 		case "int", "u8", "float":
 			return "0"
@@ -330,7 +351,7 @@ func apiIniCase(c *Ctx, d *Decl) {
 		return
 	}
 	added := addAPIOptions(r, b, true)
-	toks, want, _ := apiOccurrences(r, added)
+	toks, want, _ := apiOccurrences(r, added, false)
 	ignore := r.Bool()
 	if ignore {
 		b.P.Options |= flags.IgnoreUnknown
